@@ -205,6 +205,11 @@ func (body *BMPRouteMonitoring) Serialize(options ...*bgp.MarshallingOption) ([]
 	if body.BGPUpdatePayload != nil {
 		return body.BGPUpdatePayload, nil
 	}
+	if body.BGPUpdate == nil {
+		// e.g. the message ParseBMPMessage returns together with the error of a
+		// malformed UPDATE: there is nothing to serialize
+		return nil, errors.New("BMP Route Monitoring message has no BGP UPDATE")
+	}
 	return body.BGPUpdate.Serialize(options...)
 }
 
